@@ -150,11 +150,14 @@ func priorRecording(res, bpm100 int) string {
 
 var extraText = smf.MetaText("extra track added while the recording runs")
 
-func isExtra(t smf.Track) bool {
-	for _, e := range t {
-		if bytes.Equal(e.Message, extraText) || bytes.Equal(e.Message, []byte{0x9F, 127, 1}) {
-			return true
-		}
+// isExtra: t is the track the harness itself put into the SMF while the recording ran (extra = "add": the marker text and
+// the end of track; "record2": tempo, the one marker note sent to the second port, end of track)
+func isExtra(t smf.Track, extra string) bool {
+	switch extra {
+	case "add":
+		return len(t) == 2 && bytes.Equal(t[0].Message, extraText)
+	case "record2":
+		return len(t) == 3 && bytes.Equal(t[1].Message, []byte{0x9F, 127, 1})
 	}
 	return false
 }
@@ -319,10 +322,15 @@ func record(rec *RecRec) {
 	}
 	for i, t := range all {
 		rec.Tracks = append(rec.Tracks, events(t))
-		if rec.Ti == 0 && !isExtra(t) {
+		if rec.Ti == 0 && !isExtra(t, rec.Extra) {
 			rec.Ti = i + 1
-			rec.Track = events(t)
 		}
+	}
+	if rec.Ti == 0 && len(all) > 0 {
+		rec.Ti = 1 // the recorded stream happens to look like the harness's own extra track: the first one is as good as the other
+	}
+	if rec.Ti > 0 {
+		rec.Track = rec.Tracks[rec.Ti-1]
 	}
 }
 
